@@ -152,7 +152,7 @@ func (impl Implementation) Dggsvd3(jobU, jobV, jobQ lapack.GSVDJob, m, n, p int,
 		panic(badLdQ)
 	case len(iwork) < n:
 		panic(shortWork)
-	case lwork < 1 && lwork != -1:
+	case lwork <= n && lwork != -1:
 		panic(badLWork)
 	case len(work) < max(1, lwork):
 		panic(shortWork)
